@@ -50,19 +50,14 @@ def ops_for(bs, level):
 
 import re
 def inline_class(cfg, msg):
-    """the three recorded defects of the inline-data paths of fileio.c / punch.c (see known_findings.json); anything else on an inline filesystem is reported"""
-    if not cfg.startswith('inline'): return None
-    if re.search(r'write returned success but wrote \d+ of \d+ bytes', msg): return 'inline-write-at-nonzero-position'
-    if re.search(r'^after t:\w:\d+: (read of file \w stops at|file \w has size)', msg): return 'inline-set-size-beyond-inline-capacity'
-    if re.search(r'^after p:', msg) or 'has INLINE_DATA_FL flag but extended attribute not found' in msg: return 'inline-punch-truncates-and-drops-ea'
-    return None
+    return None        # the inline-data defects that used to be classified here were repaired (known_findings.json, fixed: entries)
 
 def run_batch(j):
     cfg, hists = j
     w = fsweep.scratch_worker()
     sf = os.path.join(w, 'fileopx.img')
     p = subprocess.run([EXE, BASES[cfg], sf], input='\n'.join(hists) + '\n', stdout=subprocess.PIPE, stderr=subprocess.PIPE, text=True,
-                       env={'ASAN_OPTIONS': 'detect_leaks=0:halt_on_error=0:exitcode=99', 'E2FSPROGS_FAKE_TIME': '1700000000', 'TZ': 'GMT0'}, timeout=3600)
+                       env=dict({'ASAN_OPTIONS': 'detect_leaks=0:halt_on_error=0:exitcode=99', 'E2FSPROGS_FAKE_TIME': '1700000000', 'TZ': 'GMT0'}, **({} if cfg.endswith('_full') else {'FILEOPX_STRICT': '1'})), timeout=3600)
     out = []
     for l in p.stdout.splitlines():
         try: out.append(json.loads(l))
